@@ -96,10 +96,18 @@ func (r *sioTimerRun) step(st gen.TimerStep, who string) {
 		_, err := r.cr.ProcessMsg(r.ctx, msg)
 		r.dues = append(r.dues, time.Now().Add(time.Duration(st.Delay)*time.Millisecond))
 		res := "ok"
+		ev := map[string]interface{}{"ev": "add", "id": st.Id, "delay": st.Delay * 1000, "tag": st.Tag, "at": before, "who": who}
 		if err != nil || r.timersError() {
 			res = "err"
+			// what went wrong, for the replay file
+			if err != nil {
+				ev["errText"] = err.Error()
+			} else if m, have := r.cr.Machines[sio.TimersMachine]; have && m.State != nil {
+				ev["errText"] = fmt.Sprint(m.State.Bs["error"]) + " @" + m.State.NodeName
+			}
 		}
-		r.log(map[string]interface{}{"ev": "add", "id": st.Id, "delay": st.Delay * 1000, "tag": st.Tag, "res": res, "at": before, "who": who})
+		ev["res"] = res
+		r.log(ev)
 	case "rem":
 		_, err := r.cr.ProcessMsg(r.ctx, map[string]interface{}{"to": "timers", "cancelTimer": st.Id})
 		res := "ok"
